@@ -8,6 +8,7 @@ from AIDojoCoordinator.game_components import Action, Observation, ActionType, G
 from AIDojoCoordinator.global_defender import GlobalDefender
 from AIDojoCoordinator.utils.utils import observation_as_dict, get_str_hash, ConfigParser
 import os
+import re
 import netaddr
 from aiohttp import ClientSession
 from cyst.api.environment.environment import Environment
@@ -226,7 +227,9 @@ class GameCoordinator:
         """
         self.task_config = ConfigParser(self._task_config_file)
         self._cyst_objects = self.task_config.get_scenario()
-        self._CONFIG_FILE_HASH = get_str_hash(str(self._cyst_objects))
+        # identifiers generated at import time (uuid4) differ in every run - they are not part of the configuration
+        config_string = re.sub(r"[0-9a-fA-F]{8}-(?:[0-9a-fA-F]{4}-){3}[0-9a-fA-F]{12}", "", str(self._cyst_objects))
+        self._CONFIG_FILE_HASH = get_str_hash(config_string)
 
     def _get_starting_position_per_role(self)->dict:
         """
